@@ -9,7 +9,8 @@ type tagSpacelessNode struct {
 	wrapper *NodeWrapper
 }
 
-var tagSpacelessRegexp = regexp.MustCompile(`(?U:(<.*>))([\t\n\v\f\r ]+)(?U:(<.*>))`)
+// a tag: '<', anything but angle brackets (line breaks included), '>'
+var tagSpacelessRegexp = regexp.MustCompile(`(<[^<>]*>)([\t\n\v\f\r ]+)(<[^<>]*>)`)
 
 func (node *tagSpacelessNode) Execute(ctx *ExecutionContext, writer TemplateWriter) *Error {
 	b := bytes.NewBuffer(make([]byte, 0, 1024)) // 1 KiB
